@@ -50,6 +50,10 @@ class C03(Check):
                 m = re.fullmatch(r'F(\d+):(.+)', p['slot'], re.S)
                 if not m or int(m.group(1)) > 5 or v != 0:
                     viol.append(dict(key=l, got=x, expected='sentinel 0 with one error (code 0..5, non-empty message)', what='malformed failure'))
+                elif int(m.group(1)) != 1:
+                    # "a meaningful code": every way a numeric function can fail is a bad argument or data that do not exist for the argument —
+                    # XRL_ERROR_INVALID_ARGUMENT in this library (the C++, Java and Python bindings map the code to an exception class)
+                    viol.append(dict(key=l, got=x, expected='error code 1 (XRL_ERROR_INVALID_ARGUMENT)', what='failure of a numeric function reported with another error code'))
             # no slot: same value
             w = q['vals'][0]
             same = (v == w) or (isinstance(v, float) and isinstance(w, float) and math.isnan(v) and math.isnan(w))
@@ -132,6 +136,8 @@ class C03(Check):
                 fail += 1
                 if a['rc'] != 0 or not (0 <= a['c'] <= 5) or a['m'] <= 0 or (num and val != 0):
                     viol.append(dict(key=l, got=ga[0], expected='sentinel 0 / NULL with one error (code 0..5, non-empty message)', what='malformed failure'))
+                elif a['c'] != 1:
+                    viol.append(dict(key=l, got=ga[0], expected='error code 1 (XRL_ERROR_INVALID_ARGUMENT): no file, allocation or capacity failure is involved in this call', what='failure reported with another error code'))
             else:
                 ok += 1
                 if num and not math.isfinite(val):
